@@ -72,6 +72,15 @@ func diskGen(seed uint64, tier string) {
 			}
 			genHistory(r, cur, 3+r.Intn(10), false)
 		}
+	case "huge":
+		// block counts whose byte length is not a file offset (numBlocks*4096 > 2^63-1, or wraps around 2^64): such a disk
+		// cannot exist — and if it is opened all the same, blocks whose byte offsets agree modulo 2^64 are still different blocks
+		for _, n := range []uint64{1 << 53, 1<<52 + 2, 1 << 51, 1 << 63, 1<<64 - 1, 1<<52 + 1<<20} {
+			proto.Reply("new %d", n)
+			genHistory(r, n, 24, true)
+			proto.Reply("reopen %d", n)
+			genHistory(r, n, 8, true)
+		}
 	case "big":
 		// sparse disks beyond 4 GiB / 2^32 bytes: offsets that do not fit 32 bits
 		for h := 0; h < 6; h++ {
@@ -129,6 +138,10 @@ func genHistory(r *proto.Rng, n uint64, nops int, big bool) {
 			if big {
 				// block pairs that collide modulo 2^20 / 2^32 bytes
 				base := uint64(r.Intn(8))
+				if n > 1<<52+8 && r.Intn(2) == 0 {
+					// (byte offsets that agree modulo 2^64)
+					return proto.Pick(r, []uint64{base, base + 1<<52})
+				}
 				return proto.Pick(r, []uint64{base, base + 1<<20, n - 1 - base})
 			}
 			if r.Intn(3) == 0 {
